@@ -595,12 +595,37 @@ func init() {
 				Step: c20Step, SeedStep: true,
 				Required: []string{"query.balance_vs_undelegate_pricing", "probe.undelegate_balance"},
 			}
+			// denoms that are suffix-related at the byte level: the unbonding index key ends with [len][denom][0][len][delegator],
+			// and a 44-character denom has the length byte 45 = '-', so "fff-<denomA>" ends with the very bytes that announce denomA
+			// (with IBC denoms, 68 characters, the byte is 'E' and a token-factory denom ".../Eibc/<hash>" collides the same way)
+			denomA := "ibc/AAAAAAAAAABBBBBBBBBBCCCCCCCCCCDDDDDDDDDD"
+			denomB := "fff-" + denomA
+			scfg := world.DefaultConfig()
+			scfg.Assets = []world.AssetCfg{{Denom: denomA, Weight: "1", Min: "0", Max: "5", TakeRate: "0"}, {Denom: denomB, Weight: "1", Min: "0", Max: "5", TakeRate: "0"}}
+			scfg.DelFunds[denomA], scfg.DelFunds[denomB] = "1000000000000", "1000000000000"
+			suffix := &engine.Scenario{
+				Property: "C20", Name: "c20-suffix-related-denoms", Cfg: scfg, Stores: world.ModuleStores,
+				Seeds:      [][]world.Op{{opDel(0, 0, denomA, "1000"), opDel(0, 0, denomB, "2000"), opDel(1, 0, denomB, "500"), opBlock(1)}},
+				ClassNames: classNames, Budgets: tierPick(tier, []int{3, 1, 0, 2, 0}, []int{4, 1, 0, 3, 0}), MaxDepth: tierPick(tier, 5, 7),
+				NewRef: func(w *world.World, root *engine.Node) engine.Ref { return newPendRef() },
+				Ops: func(n *engine.Node) []world.Op {
+					return []world.Op{
+						{K: world.KUndelegate, D: 0, V: 0, Denom: denomA, Amt: "300", Class: ClsUser},
+						{K: world.KUndelegate, D: 0, V: 0, Denom: denomB, Amt: "200", Class: ClsUser},
+						{K: world.KUndelegate, D: 1, V: 0, Denom: denomB, Amt: "100", Class: ClsUser},
+						{K: world.KSlash, V: 0, F: "0.5", Class: ClsSlash},
+						{K: world.KBlock, Dt: int64(U), Class: ClsBlock}, {K: world.KBlock, Dt: int64(3 * U), Class: ClsBlock},
+					}
+				},
+				Step: c20Step, SeedStep: true,
+				Required: []string{"query.unbondings.nonempty", "state.bucket_with_2plus_entries"},
+			}
 			unionFull := unionFullScenario("C20", "c20-union-full-pipeline", tier, c20Step, func(w *world.World, root *engine.Node) engine.Ref { return newPendRef() }, tierPick(tier, 3, 5))
 			unionFull.Required = []string{"query.unbondings.nonempty", "probe.undelegate_balance"}
 			if tier == "thorough" {
-				return []*engine.Scenario{magnitude, unionFull, removed([]int{3, 0, 1, 5, 0}, 9), mk("c20-queries", []int{4, 1, 1, 2, 0}, 7)}
+				return []*engine.Scenario{magnitude, suffix, unionFull, removed([]int{3, 0, 1, 5, 0}, 9), mk("c20-queries", []int{4, 1, 1, 2, 0}, 7)}
 			}
-			return []*engine.Scenario{magnitude, unionFull, removed([]int{2, 0, 1, 4, 0}, 7), mk("c20-queries", []int{3, 1, 1, 2, 0}, 4)}
+			return []*engine.Scenario{magnitude, suffix, unionFull, removed([]int{2, 0, 1, 4, 0}, 7), mk("c20-queries", []int{3, 1, 1, 2, 0}, 4)}
 		},
 		Assumptions: []string{
 			"reference enumeration: the list-based model of pending unbondings/redelegations (the one C02/C07/C15 validate against the store) and a raw decode of the delegation records",
